@@ -93,7 +93,8 @@ pub fn run_case(line: &str) -> String {
 }
 
 pub fn special(name: &str, args: &[String]) -> bool {
-    if name == "c14-race" { race(args); true } else if name == "c14-contend" { contend(args); true } else { false }
+    if name == "c14-race" { race(args); true } else if name == "c14-contend" { contend(args); true }
+    else if name == "c14-merge" { merge(args); true } else { false }
 }
 
 /// c14-contend <readers> <calls per reader>: the list answers of the register while writers are inside it.
@@ -194,4 +195,97 @@ pub fn race(args: &[String]) {
     all.sort();
     for w in all.windows(2) { if w[0] == w[1] { println!("dup {}", w[0]); return; } }
     println!("ok {}", all.len());
+}
+
+/// c14-merge <rounds>: overlapping update_info calls for the SAME ids that supply DIFFERENT fields.
+/// A unit, a router under it and two peers under the router are registered. Five threads work on the router's
+/// and the peers' entries at once; each OWNS fields nobody else ever supplies: unit_name / filename / name /
+/// desc (round k writes the value k) and, fifth thread, the identity fields (parent, address, AS, RIB view:
+/// always the registered values). After every own update_info(id, field := k) the thread reads get(id):
+/// its field must be k (theorem C14_update_reads_own_write: at every point of every interleaving a field
+/// holds what its only writer's last completed call supplied), parent / address / AS / RIB view must be the
+/// registered ones (C14_update_keeps_set_fields), and every 16th round ids_for_parent, find_existing_peer
+/// and find_existing_bmp_router must still find the id (C14_lookups_stable_under_updates). At the end every
+/// entry holds every thread's last value. On the code as it is every call is serialised by the write lock,
+/// so the outcome does not depend on the schedule: no false alarm by construction.
+/// Prints "ok ..." or "lost ...".
+pub fn merge(args: &[String]) {
+    use std::sync::atomic::{AtomicBool, Ordering::SeqCst};
+    use std::sync::{Arc, Barrier};
+    let rounds: usize = args.first().map(|s| s.parse().unwrap()).unwrap_or(20000);
+    let asn = |k: u32| inetnum::asn::Asn::from_u32(65000 + k);
+    let reg = Arc::new(new_register());
+    let unit = reg.verif_register();
+    let router = reg.verif_register();
+    reg.verif_update_info(router, IngressInfo::new().with_parent(unit).with_remote_addr(addr(1)));
+    let peer_a = reg.verif_register();
+    reg.verif_update_info(peer_a, IngressInfo::new().with_parent(router).with_remote_addr(addr(10)).with_remote_asn(asn(1)).with_rib_type(RibType::AdjRibIn));
+    let peer_b = reg.verif_register();
+    reg.verif_update_info(peer_b, IngressInfo::new().with_parent(router).with_remote_addr(addr(11)).with_remote_asn(asn(2)));
+    // (id, the identity it was registered with)
+    let ids: Vec<(u32, IngressInfo)> = [router, peer_a, peer_b].iter().map(|id| (*id, reg.get(*id).unwrap())).collect();
+    let ident = |i: &IngressInfo| (i.parent_ingress, i.remote_addr, i.remote_asn, i.rib_type.map(rib_n));
+    const OWNERS: [&str; 5] = ["unit_name", "filename", "name", "desc", "identity"];
+    let own_value = |w: usize, i: &IngressInfo| -> Option<String> {
+        match w { 0 => i.unit_name.clone(), 1 => i.filename.as_ref().map(|p| p.to_string_lossy().to_string()), 2 => i.name.clone(), _ => i.desc.clone() }
+    };
+    let stop = Arc::new(AtomicBool::new(false));
+    let start = Arc::new(Barrier::new(OWNERS.len()));
+    let hs: Vec<_> = (0..OWNERS.len()).map(|w| {
+        let (reg, ids, stop, start) = (reg.clone(), ids.clone(), stop.clone(), start.clone());
+        std::thread::spawn(move || -> Result<usize, String> {
+            start.wait();
+            let mut n = 0usize;
+            for k in 0..rounds {
+                if stop.load(SeqCst) { break; }
+                for (id, registered) in ids.iter() {
+                    let v = format!("v{k}");
+                    let upd = match w {
+                        0 => IngressInfo::new().with_unit_name(v.clone()),
+                        1 => IngressInfo::new().with_filename(std::path::PathBuf::from(v.clone())),
+                        2 => IngressInfo::new().with_name(v.clone()),
+                        3 => IngressInfo::new().with_desc(v.clone()),
+                        _ => IngressInfo { parent_ingress: registered.parent_ingress, remote_addr: registered.remote_addr,
+                                           remote_asn: registered.remote_asn, rib_type: registered.rib_type, ..IngressInfo::new() },
+                    };
+                    reg.verif_update_info(*id, upd);
+                    n += 1;
+                    let seen = match reg.get(*id) { Some(i) => i, None => return Err(format!("round {k}: get({id}) found nothing")) };
+                    if w < 4 && own_value(w, &seen).as_deref() != Some(v.as_str()) {
+                        return Err(format!("round {k}: the thread that alone supplies `{}` wrote {v} to id {id} and read back {:?} \
+                                            (an update that did not supply the field changed it)", OWNERS[w], own_value(w, &seen)));
+                    }
+                    if ident(&seen) != ident(registered) {
+                        return Err(format!("round {k}: identity of id {id} changed from {:?} to {:?}", ident(registered), ident(&seen)));
+                    }
+                    if k % 16 == 0 {
+                        let p = registered.parent_ingress.unwrap();
+                        if !reg.ids_for_parent(p).contains(id) { return Err(format!("round {k}: ids_for_parent({p}) lost id {id}")); }
+                        let q = IngressInfo { parent_ingress: registered.parent_ingress, remote_addr: registered.remote_addr,
+                                              remote_asn: registered.remote_asn, rib_type: registered.rib_type, ..IngressInfo::new() };
+                        let found = if registered.remote_asn.is_some() { reg.find_existing_peer(&q) } else { reg.find_existing_bmp_router(&q) };
+                        if found.map(|(i, _)| i) != Some(*id) { return Err(format!("round {k}: find_existing_* no longer finds id {id}")); }
+                    }
+                }
+            }
+            Ok(n)
+        })
+    }).collect();
+    let res: Vec<Result<usize, String>> = hs.into_iter().map(|h| { let r = h.join().unwrap(); if r.is_err() { stop.store(true, SeqCst); } r }).collect();
+    if let Some(e) = res.iter().find_map(|r| r.as_ref().err()) { println!("lost {e}"); return; }
+    // everybody ran all rounds: every entry holds every thread's last value
+    let last = format!("v{}", rounds - 1);
+    for (id, registered) in ids.iter() {
+        let i = reg.get(*id).unwrap();
+        for w in 0..4 {
+            if own_value(w, &i).as_deref() != Some(last.as_str()) {
+                println!("lost at the end: `{}` of id {id} is {:?}, its only writer's last value was {last}", OWNERS[w], own_value(w, &i));
+                return;
+            }
+        }
+        if ident(&i) != ident(registered) { println!("lost at the end: identity of id {id} is {:?}", ident(&i)); return; }
+    }
+    let mut kids = reg.ids_for_parent(router); kids.sort();
+    if kids != vec![peer_a, peer_b] || reg.ids_for_parent(unit) != vec![router] { println!("lost at the end: children {:?} / {:?}", reg.ids_for_parent(unit), kids); return; }
+    println!("ok {} rounds, {} threads on {} ids, {} overlapping updates, every own field read back", rounds, OWNERS.len(), ids.len(), res.iter().map(|r| *r.as_ref().unwrap()).sum::<usize>());
 }
